@@ -48,6 +48,8 @@ partial def parseDesc (d : String) : Option Msg :=
   else if d == "pong" || d == "ack" || d == "cont()" then some .quiet
   else if d == "deep" then some (.cont [])   -- levels of a very deep message the trace does not spell out
   else if d == "upd" || d == "unk" || d == "trunc" || d == "gzbad" then some .odd
+  -- a well-formed service request / informational message the client has no use for: reported, nothing else
+  else if d.startsWith "svc(" then some .odd
   else if d.startsWith "cont[" then
     let inner := dropSuffixChar ((d.drop 5).toString)
     let members := if inner.isEmpty then [] else splitTop inner '|'
@@ -96,6 +98,12 @@ def parseEvent (e : String) : Parsed :=
   | ["S", rest] =>
     match rest.splitOn ":" with
     | [c, mid, seq, salt, "q"] =>
+      match c.toNat?, mid.toNat?, seq.toNat?, salt.toInt? with
+      | some c, some mid, some seq, some salt => .ev (.send c mid seq salt)
+      | _, _, _, _ => .bad e
+    -- a request of another type than ping (the sixth field names its constructor): every request a caller
+    -- can send is content-related, the machine's `send` asks for an odd seq_no
+    | [c, mid, seq, salt, "q", _ctor] =>
       match c.toNat?, mid.toNat?, seq.toNat?, salt.toInt? with
       | some c, some mid, some seq, some salt => .ev (.send c mid seq salt)
       | _, _, _, _ => .bad e
